@@ -1,5 +1,5 @@
 From Coq Require Import ZArith Bool List.
-From KD Require Import Model.Values Model.Validate Model.Perm Model.Glob Model.Broker Model.BrokerRun Proofs.Broker Properties.C01.
+From KD Require Import Model.Values Model.Validate Model.Perm Model.Glob Model.Broker Model.BrokerRun Proofs.Broker Model.Api Model.ApiRun Proofs.Api Properties.C01.
 Open Scope Z_scope.
 Check c01_batch_contract : forall us db p now clock db' changed errs,
   NoDup (map fst us) ->
@@ -38,3 +38,12 @@ Check c01_new_signal_not_available : forall db p now clock name dt ct et mn mx a
      d_value (e_dp e) = VNA /\ d_ts (e_dp e) = clock /\ e_target e = None /\
      db' = {| next_id := wrap_i32 (next_id db + 1); path_to_id := (name, next_id db) :: path_to_id db;
               entries := entries db ++ [(next_id db, e)] |}).
+Check c01_sdv_stream_is_update : forall st p l, sdv_stream_msg st p l = sdv_update st p l.
+Check c01_v1_stream_is_core : forall st p l,
+  fst (v1_stream_msg st p l) = fst (update_entries st p (filter_map (v1_forwardable (st_db st)) l)).
+Check c01_v1_stream_every_element : forall st l,
+  (length (snd (v1_stream_resolve (st_db st) l [] [] 0)) + length (filter_map (v1_forwardable (st_db st)) l)
+   = length l)%nat.
+Check c01_v1_set_stream_same_core : forall st l ups nf,
+  v1_set_resolve (st_db st) l [] [] 0 = inl (ups, nf) ->
+  fst (v1_stream_resolve (st_db st) l [] [] 0) = ups.
